@@ -60,7 +60,7 @@ P = {
  "C16": dict(cat="proof", tech="extraction and normalisation of the rejection predicates; verdict/message typestate; PPolyND rejection-path state; compile-time witness for the threshold",
    text="Set of rejection predicates equals the specified set, threshold constant and strictness, verdict/message coherence on every path, PPolyND rejection paths and at() bounds.",
    note="std::isfinite semantics under the build flags not decided"),
- "C17": dict(cat="proof", tech="algebraic summaries of the time-map branches: continuity/C1 at the switch, backward = derivative, inverse identities (refuted only by exact evaluation at a sample point), signs decided exactly (assumptions, real-root counting)",
+ "C17": dict(cat="proof", tech="algebraic summaries of the time-map branches: continuity/C1 at the switch, backward = derivative, inverse identities on every piece of the inverse between consecutive switch points (refuted only by exact evaluation at a sample point), signs decided exactly (assumptions, real-root counting)",
    text="Branch-wise calculus on the extracted closed forms for all real tau and T>0.",
    note="exact arithmetic; monotonicity between adjacent floats not decided"),
  "C19": dict(cat="proof", tech="structural rules on checkGradients: perturb/restore typestate per component, central-difference formula, same functors/workspace, final re-evaluation",
